@@ -174,6 +174,33 @@ func genChains(purp string, tier string, rng *RNG, w *CaseWriter) {
 			base := basePlan(n, purp, lk)
 			b := base.build()
 			emit(b.xs, nil, nil)
+			if ki == 0 && n >= 2 {
+				// after the genuine chain has been validated: the same certificates, except that one CA is replaced by a
+				// look-alike with the same name, serial number and subject key identifier but ANOTHER key (the certificate
+				// below it is still the genuine one, so it is not signed by the look-alike)
+				for pos := 1; pos < n; pos++ {
+					orig := b.certs[pos]
+					spec := orig.Spec
+					spec.KeyName = map[string]string{"ec256b": "ec256c", "ec256c": "ec256b", "ec256a": "ec256c"}[spec.KeyName]
+					if spec.KeyName == "" {
+						spec.KeyName = "ec256c"
+					}
+					spec.SKI = orig.X.SubjectKeyId
+					spec.Serial = orig.X.SerialNumber
+					var parent *Cert
+					if pos < n-1 {
+						parent = b.certs[pos+1]
+					}
+					forged := Issue(spec, parent, nil)
+					xs2 := append([]*x509.Certificate{}, b.xs...)
+					xs2[pos] = forged.X
+					emit(xs2, nil, []string{fmt.Sprintf("ca-rekeyed-same-ski@%d", pos)})
+					if purp == "cs" {
+						emit(xs2, &mid, []string{fmt.Sprintf("ca-rekeyed-same-ski@%d", pos)})
+					}
+					emit(b.xs, nil, []string{"genuine-again"})
+				}
+			}
 			if purp == "cs" {
 				emit(b.xs, &mid, nil)
 				if ki == 0 {
